@@ -241,11 +241,26 @@ func (r *run) verifyRoot(n *Node, h uint32, fs *flatState) {
 		// must give the same sequence
 		if len(want) > 0 && r.tape.Chance(1, 2) {
 			page := 1 + r.tape.Choose(3)
+			if r.tape.Chance(1, 2) {
+				page = 1
+			}
 			prefix := bytes.Clone(idb[:])
 			wantP := want
-			if r.tape.Chance(1, 2) {
-				if k := want[r.tape.Choose(len(want))]; len(k) > 4 {
-					prefix = append(prefix, k[4])
+			if r.tape.Chance(2, 3) {
+				// prefixes that end inside a run shared by neighbouring keys (inside an extension node of the trie)
+				var cands []string
+				for i := 1; i < len(want); i++ {
+					a, b := want[i-1], want[i]
+					l := 0
+					for l < len(a) && l < len(b) && a[l] == b[l] {
+						l++
+					}
+					for j := 5; j <= l; j++ {
+						cands = append(cands, a[:j])
+					}
+				}
+				if len(cands) > 0 {
+					prefix = []byte(cands[r.tape.Choose(len(cands))])
 					wantP = nil
 					for _, w := range want {
 						if strings.HasPrefix(w, string(prefix)) {
